@@ -45,6 +45,7 @@ def cases(draw, max_nodes):
                                      failures=8 if serial_many else draw(st.sampled_from([3, 5, 8]))))
         if draw(st.booleans()):
             spec["output"] = common.all_refs_output(spec, lits=draw(st.booleans()))
+    specs.use_dependent_literals(draw, spec["nodes"])
     cfg = draw(specs.run_configs(nodes=len(spec["nodes"]), max_errors=True))
     if serial_many:
         cfg["workers"] = 1
